@@ -156,35 +156,63 @@ theorem feature_records_used (tags : List Nat) (hs : tags.Pairwise (· < ·)) (r
   · intro _ _ l hl; cases hl
   · intro _ _ _; constructor <;> intro h <;> cases h
 
-/-- **format1_offer_exact.**  A successful `add_intersecting_format1_patches` offers exactly the
-entries `k` with `k > 0` (entry 0 = already in the font), application bit clear, that are either
+/-- **format1_offer_exact.**  A successful `add_intersecting_format1_patches` offers **exactly**
+the entries `k` with `k > 0` (entry 0 = already in the font), application bit clear, that are either
 glyph-map entries of a requested codepoint or are named by a firing entry-map record of a used
-feature record; the uri is (template, id k, the table's format, bit = bitmap start·8 + k). -/
+feature record; every offered uri is (template, id k, the table's format, bit = bitmap start·8 + k). -/
 theorem format1_offer_exact (tag : TableTag) (t : F1Table) (d : SubsetDef) (us : List PatchUri)
     (h : intersectF1 tag t d = .ok us) :
     ∃ enc, PatchFormat.ofNumber t.patchFormat = some enc ∧
-      ∀ u, u ∈ us → ∃ k, k > 0 ∧ isEntryApplied t.bitmap k = false ∧
+      (∀ u, u ∈ us → ∃ k,
         stripInfo u = { template := t.template, id := .num k, enc := enc, table := tag,
                         compat := t.compat, bit := t.bitmapStart * 8 + k,
-                        info := IntersectionInfo.zero } ∧
-        let G := glyphKey t (t.cmap.filter fun (p : Nat × Nat) => rMem (p.1 : Int) d.cps)
-        (G k ∨ (t.hasFeatureMap = true ∧ ∃ q, q ∈ selectedRecs t d.feats ∧
-            ∃ i, i ∈ List.range q.1.count ∧ fires t G q.1 q.2 i k)) := by
+                        info := IntersectionInfo.zero }) ∧
+      ∀ k, (∃ u, u ∈ us ∧ u.id = .num k) ↔
+        (k > 0 ∧ isEntryApplied t.bitmap k = false ∧
+          let G := glyphKey t (t.cmap.filter fun (p : Nat × Nat) => rMem (p.1 : Int) d.cps)
+          (G k ∨ (t.hasFeatureMap = true ∧ ∃ q, q ∈ selectedRecs t d.feats ∧
+              ∃ i, i ∈ List.range q.1.count ∧ fires t G q.1 q.2 i k))) := by
   obtain ⟨enc, gm, entries, henc, hgm, hent, hus⟩ := intersectF1_ok h
-  refine ⟨enc, henc, ?_⟩
-  intro u hu
-  obtain ⟨p, hp, hp0, hpa, hstrip, _⟩ := (hus u).1 hu
-  refine ⟨p.1, hp0, hpa, hstrip, ?_⟩
+  refine ⟨enc, henc, ?_, ?_⟩
+  · intro u hu
+    obtain ⟨p, _, _, _, hstrip, _⟩ := (hus u).1 hu
+    exact ⟨p.1, hstrip⟩
+  intro k
   have hG : ∀ k, hasKey gm k ↔ glyphKey t (t.cmap.filter fun (p : Nat × Nat) => rMem (p.1 : Int) d.cps) k := by
     intro k
     rw [glyphMapLoop_keys t _ _ [] gm hgm k]
     simp [hasKey]
-  have hkey : hasKey entries p.1 := ⟨p, hp, rfl⟩
-  rw [featureMap_keys t _ _ gm entries hent] at hkey
+  have hfire : ∀ (q : FeatRec × Nat) (i : Nat), fires t (hasKey gm) q.1 q.2 i k ↔
+      fires t (glyphKey t (t.cmap.filter fun (p : Nat × Nat) => rMem (p.1 : Int) d.cps)) q.1 q.2 i k :=
+    fun q i => ⟨fires_mono t (fun k hk => (hG k).1 hk) _ _ _ _, fires_mono t (fun k hk => (hG k).2 hk) _ _ _ _⟩
+  have hkeys := featureMap_keys t _ _ gm entries hent k
   simp only []
-  rcases hkey with hk | ⟨hfm, q, hq, i, hi, hf⟩
-  · exact Or.inl ((hG _).1 hk)
-  · exact Or.inr ⟨hfm, q, hq, i, hi, fires_mono t (fun k hk => (hG k).1 hk) _ _ _ _ hf⟩
+  constructor
+  · rintro ⟨u, hu, hid⟩
+    obtain ⟨p, hp, hp0, hpa, hstrip, _⟩ := (hus u).1 hu
+    have hk : p.1 = k := by
+      have := congrArg PatchUri.id hstrip
+      simp only [PatchUri.strip] at this
+      rw [hid] at this
+      cases this; rfl
+    subst hk
+    refine ⟨hp0, hpa, ?_⟩
+    rcases hkeys.1 ⟨p, hp, rfl⟩ with hk | ⟨hfm, q, hq, i, hi, hf⟩
+    · exact Or.inl ((hG _).1 hk)
+    · exact Or.inr ⟨hfm, q, hq, i, hi, (hfire q i).1 hf⟩
+  · rintro ⟨hk0, hka, hcond⟩
+    have : hasKey entries k := by
+      apply hkeys.2
+      rcases hcond with hk | ⟨hfm, q, hq, i, hi, hf⟩
+      · exact Or.inl ((hG _).2 hk)
+      · exact Or.inr ⟨hfm, q, hq, i, hi, (hfire q i).2 hf⟩
+    obtain ⟨p, hp, rfl⟩ := this
+    let u : PatchUri :=
+      { template := t.template, id := .num p.1, enc := enc, table := tag, compat := t.compat,
+        bit := t.bitmapStart * 8 + p.1,
+        info := if enc.isInvalidating then IntersectionInfo.fromSubset p.2 p.1
+                else IntersectionInfo.zero }
+    exact ⟨u, (hus u).2 ⟨p, hp, hk0, hka, rfl, rfl⟩, rfl⟩
 
 /-- **format1_offer_monotone.**  Format 1: when the definition grows (codepoints, features) and
 both calls succeed, every offered entry stays offered.  (A larger definition may *fail* where the
